@@ -175,7 +175,8 @@ def _setup(b, case):
     lib.provide(b, b.module('web.i_web').ns['WebApp'], wa)
     return {'self': front_end(b), 'path': b.sym('str', 'path'), 'web_app': wa, '_acts': acts, '_sc': sc}
 c.setup(_setup)
-c.ensures('stops-exactly-the-named-running-script', "(old(_sc.running) ==> len(_acts) == 1 and _acts[0][1] == path) and (not old(_sc.running) ==> len(_acts) == 0)")
+# the job's NAME is the escaped path held by its ScriptControl (WebApp.queue_script), not the text of the request
+c.ensures('stops-exactly-the-named-running-script', "(old(_sc.running) ==> len(_acts) == 1 and _acts[0][1] == _sc.path) and (not old(_sc.running) ==> len(_acts) == 0)")
 
 # ---- status and capture render without error
 c = contract(WA, 'WebApp.get_status', serves=['C20'])
@@ -201,3 +202,49 @@ def _setup(b, case):
     return {'self': wa, 'settings': settings, '_written': written}
 c.setup(_setup)
 c.ensures('writes-the-script-snapshot-once-and-closes', "len(_written) == 2 and _written[1] == '<closed>'")
+
+
+# ---- the index page's list: a copy of every manifest entry with the running state of ITS job (escaped path), in manifest order
+c = contract(WA, 'WebApp.get_script_list', serves=['C20'])
+def _setup(b, case):
+    s1, s2 = script_control(b, 'first'), script_control(b, 'second')
+    k1, k2 = b.sym('str', 'key1'), b.sym('str', 'key2')
+    b.assume(k1.t != k2.t) if hasattr(k1, 't') else None
+    wa, calls = web_app(b, {k1: s1, k2: s2})
+    return {'self': wa, '_s1': s1, '_s2': s2, '_calls': calls}
+c.setup(_setup)
+c.bounded('two manifest entries')
+c.ensures('one-copy-per-entry-in-order', 'len(result) == 2 and result[0] is not _s1 and result[1] is not _s2 and result[0].file_name == _s1.file_name '
+          'and result[1].file_name == _s2.file_name and result[0].path == _s1.path and result[1].path == _s2.path')
+c.ensures('running-state-asked-under-the-jobs-name', "len(_calls) == 2 and _calls[0][0] == 'is_running' and _calls[0][1] == _s1.path and _calls[1][1] == _s2.path")
+c.ensures('manifest-entries-not-modified', '_s1.running is None and _s2.running is None')
+
+# ---- stop requests of the application object go to the job controller unchanged
+for meth, arg in (('stop_script', True), ('stop_current', False)):
+    c = contract(WA, 'WebApp.' + meth, serves=['C20', 'C09'])
+    def _setup(b, case, arg=arg):
+        wa, calls = web_app(b)
+        d = {'self': wa, '_calls': calls}
+        if arg:
+            d['path'] = b.sym('str', 'job_name')
+        return d
+    c.setup(_setup)
+    if arg:
+        c.ensures('exactly-that-job', "len(_calls) == 1 and _calls[0][0] == 'stop_job' and _calls[0][1] == path")
+    else:
+        c.ensures('exactly-the-current-job', "len(_calls) == 1 and _calls[0][0] == 'stop_current'")
+
+# ---- default title: the path with _ and - as spaces, in title case; a given title wins
+for given in (False, True):
+    c = contract(WA, 'WebApp.get_script_title', serves=['C20'], name='WebApp.get_script_title[title %s]' % ('given' if given else 'absent'))
+    def _setup(b, case, given=given):
+        wa, calls = web_app(b)
+        cfg = PyDict({'file_name': 'evening_all-on.ls'})
+        if given:
+            cfg.d['title'] = b.sym('str', 'given_title')
+        return {'self': wa, 'script_config': cfg}
+    c.setup(_setup)
+    if given:
+        c.ensures('given-title-or-derived', "(script_config['title'] != '' ==> result == script_config['title']) and (script_config['title'] == '' ==> result == 'Evening All On')")
+    else:
+        c.ensures('derived-from-the-path', "result == 'Evening All On'")
